@@ -1,2 +1,43 @@
 //! Read-only probe (child module of `ntp-proto/src/packet/extension_fields.rs`), compiled only under
-//! `--cfg pendulum_project_ntpd_rs_verif`. Owned by the world that needs it; must never mutate state.
+//! `--cfg pendulum_project_ntpd_rs_verif`. Owned by world w1n; never mutates state.
+
+use super::{ExtensionField, ExtensionFieldData, ExtensionFieldTypeId};
+use crate::verif::packet::{EfView, PacketEfView};
+
+impl ExtensionField<'_> {
+    /// Canonical (type id, body) form of a decoded extension field.
+    pub fn verif_raw(&self) -> EfView {
+        let (t, data): (ExtensionFieldTypeId, Vec<u8>) = match self {
+            ExtensionField::UniqueIdentifier(d) => (ExtensionFieldTypeId::UniqueIdentifier, d.to_vec()),
+            ExtensionField::NtsCookie(d) => (ExtensionFieldTypeId::NtsCookie, d.to_vec()),
+            ExtensionField::NtsCookiePlaceholder { cookie_length } => (
+                ExtensionFieldTypeId::NtsCookiePlaceholder,
+                vec![0; *cookie_length as usize],
+            ),
+            ExtensionField::InvalidNtsEncryptedField => (ExtensionFieldTypeId::NtsEncryptedField, vec![]),
+            ExtensionField::DraftIdentification(s) => (ExtensionFieldTypeId::DraftIdentification, s.as_bytes().to_vec()),
+            ExtensionField::Padding(len) => (ExtensionFieldTypeId::Padding, (*len as u64).to_be_bytes().to_vec()),
+            ExtensionField::ReferenceIdRequest(r) => (
+                ExtensionFieldTypeId::ReferenceIdRequest,
+                [r.offset().to_be_bytes(), r.payload_len().to_be_bytes()].concat(),
+            ),
+            ExtensionField::ReferenceIdResponse(r) => (ExtensionFieldTypeId::ReferenceIdResponse, r.bytes().to_vec()),
+            ExtensionField::Unknown { type_id, data } => (ExtensionFieldTypeId::Unknown { type_id: *type_id }, data.to_vec()),
+        };
+        EfView {
+            type_id: t.to_type_id(),
+            data,
+        }
+    }
+}
+
+impl ExtensionFieldData<'_> {
+    pub(in crate::packet) fn verif_view(&self, has_mac: bool) -> PacketEfView {
+        PacketEfView {
+            authenticated: self.authenticated.iter().map(|e| e.verif_raw()).collect(),
+            encrypted: self.encrypted.iter().map(|e| e.verif_raw()).collect(),
+            untrusted: self.untrusted.iter().map(|e| e.verif_raw()).collect(),
+            has_mac,
+        }
+    }
+}
